@@ -101,7 +101,7 @@ PROPS["C16"] = dict(
                  "a record of 80 MiB is an ordinary byte string for newBuf=true as well (the process then holds the input and a copy)",
                  "the native fuzzing stage (thorough) uses a test binary built with -fuzz (coverage instrumentation) and is seeded with the hostile inputs"],
     units=[
-        dict(name="exhaustive", run="^TestC16Exhaustive$", shards=(4, 16), timeout=(200, 600)),
+        dict(name="exhaustive", run="^TestC16Exhaustive$", shards=(6, 16), timeout=(200, 600)),
         dict(name="grammar", run="^TestC16RapidGrammar$", checks=(30000, 400000), shards=(2, 16), timeout=(200, 600)),
         dict(name="mutate", run="^TestC16RapidMutate$", checks=(30000, 400000), shards=(2, 16), timeout=(200, 600)),
         dict(name="history_exhaustive", run="^TestC16HistoryExhaustive$", shards=(1, 4), timeout=(200, 600)),
